@@ -15,15 +15,16 @@ def sh(cmd, cwd=None, env=None, timeout=3000):
 
 def main():
     area, hn = sys.argv[1], sys.argv[2]
-    out = f"/tmp/outr_{area}/{hn}"
+    rnd = sys.argv[sys.argv.index("--round") + 1] if "--round" in sys.argv else ""
+    out = f"/tmp/outr{rnd}_{area}/{hn}"
     patch = os.path.join(out, "patch.diff")
-    copy = f"/tmp/refrepo_{area}_{hn}"
+    copy = f"/tmp/refrepo{rnd}_{area}_{hn}"
     shutil.rmtree(copy, ignore_errors=True)
     sh(["rsync", "-a", "--exclude", "target", "--exclude", ".git", "/repo/", copy + "/"])
     rc, o = sh(f"patch -p1 -s < {patch}", cwd=copy)
     if rc != 0:
         print("patch does not apply:", o[-300:]); return 2
-    rc, o = sh("cargo test --workspace --offline 2>&1", cwd=copy, env={"CARGO_TARGET_DIR": f"/tmp/wtr_{area}/target"})
+    rc, o = sh("cargo test --workspace --offline 2>&1", cwd=copy, env={"CARGO_TARGET_DIR": f"/tmp/wtr{rnd}_{area}/target"})
     passed = sum(int(x) for x in re.findall(r"test result: ok\. (\d+) passed", o))
     print(f"suite: rc={rc} passed={passed}")
     if rc != 0:
@@ -43,7 +44,7 @@ def main():
             alarms[p] = {"rc": rc, "lines": vio, "detail": detail, "tail": o[-400:]}
             print(f"  FALSE ALARM {p}: {vio} :: {detail[:700]}")
     print(f"{area}/{hn}: {len(alarms)} false alarm(s) out of {len(props)} checks: {sorted(alarms)}")
-    dst = os.path.join(V, "seeded", f"harmless_{area}_{hn}")
+    dst = os.path.join(V, "seeded", f"harmless_{area}_{'r' + rnd if rnd else ''}{hn}")
     shutil.rmtree(dst, ignore_errors=True); os.makedirs(dst)
     for f in ("patch.diff", "notes.md"):
         if os.path.exists(os.path.join(out, f)):
